@@ -551,3 +551,67 @@ Fixpoint norm (v : val) : val :=
   | VData c fl => VData c (map (fun nv => let '(n, x) := nv in (n, norm x)) fl)
   | x => x
   end.
+
+(* ------------------------------------------------------------------------------------------ *)
+(* RFC 4648 base64 (standard alphabet, '=' padding) — an executable candidate for the enc/dec oracles.
+   b64dec is the STRICT decoder (canonical input only); Python's b64decode is more lenient, but on the
+   serialiser's own output the two agree (checked by the correspondence).                         *)
+Definition B64_ALPHABET : list N :=
+  s "ABCDEFGHIJKLMNOPQRSTUVWXYZabcdefghijklmnopqrstuvwxyz0123456789+/".
+Definition B64_PAD : N := 61.
+Definition b64ch (i : N) : N := nth (N.to_nat i) B64_ALPHABET 0.
+Fixpoint index_of (c : N) (l : list N) (i : N) : option N :=
+  match l with
+  | [] => None
+  | x :: r => if N.eqb x c then Some i else index_of c r (i + 1)
+  end.
+Definition b64idx (c : N) : option N := index_of c B64_ALPHABET 0.
+
+Fixpoint b64enc (b : list N) : list N :=
+  match b with
+  | [] => []
+  | [x] => [b64ch (x / 4); b64ch ((x mod 4) * 16); B64_PAD; B64_PAD]
+  | [x; y] => [b64ch (x / 4); b64ch ((x mod 4) * 16 + y / 16); b64ch ((y mod 16) * 4); B64_PAD]
+  | x :: y :: z :: r =>
+      b64ch (x / 4) :: b64ch ((x mod 4) * 16 + y / 16) :: b64ch ((y mod 16) * 4 + z / 64)
+      :: b64ch (z mod 64) :: b64enc r
+  end.
+
+Fixpoint b64dec (t : list N) : option (list N) :=
+  match t with
+  | [] => Some []
+  | a :: b :: c :: d :: r =>
+      match b64idx a, b64idx b with
+      | Some p, Some q =>
+          if N.eqb c B64_PAD then
+            if N.eqb d B64_PAD then
+              match r with
+              | [] => if N.eqb (q mod 16) 0 then Some [p * 4 + q / 16] else None
+              | _ => None
+              end
+            else None
+          else
+            match b64idx c with
+            | Some u =>
+                if N.eqb d B64_PAD then
+                  match r with
+                  | [] => if N.eqb (u mod 4) 0 then Some [p * 4 + q / 16; (q mod 16) * 16 + u / 4] else None
+                  | _ => None
+                  end
+                else
+                  match b64idx d with
+                  | Some w =>
+                      match b64dec r with
+                      | Some tl => Some ((p * 4 + q / 16) :: ((q mod 16) * 16 + u / 4) :: ((u mod 4) * 64 + w) :: tl)
+                      | None => None
+                      end
+                  | None => None
+                  end
+            | None => None
+            end
+      | _, _ => None
+      end
+  | _ => None
+  end.
+
+Definition is_byte (x : N) : bool := N.ltb x 256.
